@@ -23,6 +23,10 @@ def run(chk, replay=None):
     for t in ("PUB", "XPUB"):
         for i in range(600 if thorough else 70):
             scen += 1; fam.append(pslib.c12_script(rng, t, scen))
+    for t in ("PUB", "XPUB"):
+        for k in (5, 100, 1500):
+            for after in ("quiet", "other-topic"):
+                scen += 1; fam.append(pslib.c12_withheld_script(t, scen, k, after))
     for s in fam: chk.case((s["sock"], json.dumps(s["ops"])[:3000]), nontrivial=any(o["op"] == "credit" and o.get("k") is not None for o in s["ops"]))
     chk.sample({"kind": "back-pressure schedule", "sock": fam[0]["sock"], "ops": [(o["op"], o.get("c"), o.get("k")) for o in fam[0]["ops"]][:24]})
     pslib.run_and_report(chk, fam, "c12", ("C12/",))
